@@ -12,7 +12,7 @@ import logging
 import contextlib
 
 from pybufrkit.errors import PyBufrKitError, UnknownDescriptor
-from pybufrkit.coder import Coder, CoderState
+from pybufrkit.coder import Coder, CoderState, BSRModifier
 from pybufrkit.tables import TableGroupKey, TableGroupCacheManager
 from pybufrkit.descriptors import Descriptor, ElementDescriptor
 
@@ -473,9 +473,14 @@ def load_method_call_from_dict(method_type, table_group, d):
     else:
         args = tuple(d['args'])
 
+    state_properties = d.get('state_properties')
+    if state_properties is not None and 'bsr_modifier' in state_properties:
+        # JSON has no tuples: rebuild the named tuple the coder expects
+        state_properties = dict(state_properties, bsr_modifier=BSRModifier(*state_properties['bsr_modifier']))
+
     return method_type(method_name=d['method_name'],
                        args=args,
-                       state_properties=d.get('state_properties'))
+                       state_properties=state_properties)
 
 
 STATEMENT_LOAD_FUNCS = {
